@@ -235,7 +235,7 @@ var quickCorpusByProp = map[string]map[string]bool{
 	"C05": {"structs.thrift": true, "unions.thrift": true, "enums.thrift": true, "exceptions.thrift": true, "wide.thrift": true},
 	"C15": {"structs.thrift": true, "exceptions.thrift": true, "redact.thrift": true},
 	"C13": {"containers.thrift": true},
-	"C14": {"structs.thrift": true, "enums.thrift": true, "unions.thrift": true, "exceptions.thrift": true, "typedefs.thrift": true, "containers.thrift": true, "equals.thrift": true},
+	"C14": {"structs.thrift": true, "enums.thrift": true, "unions.thrift": true, "exceptions.thrift": true, "typedefs.thrift": true, "equals.thrift": true},
 }
 
 func prepareInst(repo, verif, tier, prop string) (*InstInfo, error) {
